@@ -1,7 +1,9 @@
 package main
 
 import (
+	"encoding/hex"
 	"fmt"
+	"sort"
 	"strings"
 	"unicode/utf8"
 
@@ -267,7 +269,202 @@ func suiteSen(tier string, seed uint64, model string) *Report {
 			rep.Samples = append(rep.Samples, desc)
 		}
 	}
+	if model != "" {
+		senModelTie(rep, r, tier, model)
+	}
 	rep.Distinct = len(distinct)
 	rep.Rule = "every special spelling (reserved words, number/sign-like, operators, comments, 64/65-byte tokens) as value, key and array element; all strings of length <= 2 over a 54-piece alphabet (delimiters, quotes, comment markers, control, non-ASCII, invalid UTF-8) as value and as key; lists of small maps with mixed bare/quoted keys (align tables); seeded trees x random options; sen.String/Bytes/Write and pretty.SEN/WriteSEN, each text parsed back with sen.Parse and compared with the expected tree (omitted members removed, invalid UTF-8 replaced); a failure is attributed to the recorded class only if the same tree with exactly those strings defused round-trips; non-trivial = distinct trees"
 	return rep
+}
+
+// senModelTie ties the executable Coq model of the string clause (Sen/SenStr.v) to the code:
+// sen_string against ojg.AppendSENString byte for byte, and the string-value reader rrun against
+// sen.Parse with the text placed in an array, as a member value and as a key.
+func senModelTie(rep *Report, r *Rng, tier, model string) {
+	seen := map[string]bool{}
+	var strs []string
+	add := func(s string) {
+		if !seen[s] {
+			seen[s] = true
+			strs = append(strs, s)
+		}
+	}
+	for _, s := range senSpecial {
+		add(s)
+	}
+	for b := 0; b < 256; b++ {
+		add(string([]byte{byte(b)}))
+		add("a" + string([]byte{byte(b)}))
+		add(string([]byte{byte(b)}) + "a")
+		add("\xe2\x80" + string([]byte{byte(b)}))
+		add("\xef\xbb" + string([]byte{byte(b)}) + "z")
+		add("\xef\xbf" + string([]byte{byte(b)}))
+	}
+	for _, a := range senStrPieces {
+		for _, b := range senStrPieces {
+			add(a + b)
+			add("k" + a + b)
+		}
+	}
+	add(strings.Repeat("k", 63) + "é")
+	add(strings.Repeat("é", 32))
+	add(strings.Repeat("é", 33))
+	n := 3000
+	if tier == "thorough" {
+		n = 60000
+	}
+	for i := 0; i < n; i++ {
+		if r.Chance(50) {
+			add(genSenString(r) + genSenString(r))
+		} else {
+			k := 1 + r.Intn(6)
+			b := make([]byte, k)
+			for j := range b {
+				switch r.Intn(4) {
+				case 0:
+					b[j] = byte(r.Intn(256))
+				case 1:
+					b[j] = byte(0x80 + r.Intn(0x80))
+				default:
+					const cs = "abz019 \"'\\/&<>\n\t\x00\x7f-+:,[]{}()"
+					b[j] = cs[r.Intn(len(cs))]
+				}
+			}
+			add(string(b))
+		}
+	}
+	var reqs []string
+	for _, s := range strs {
+		reqs = append(reqs, "senstr\t0\t"+hx([]byte(s)), "senstr\t1\t"+hx([]byte(s)))
+	}
+	ans, err := RunModel(model, reqs)
+	if err != nil {
+		rep.Add(Disagreement{Case: "model", Kind: "harness-error", Detail: err.Error()})
+		return
+	}
+	// texts for the reader: what the writer produced, and hand-made quoted and bare spellings
+	texts := map[string]bool{}
+	for i, s := range strs {
+		for h := 0; h < 2; h++ {
+			rep.Evaluations++
+			got := hx(ojg.AppendSENString(nil, s, h == 1))
+			if got != ans[2*i+h] {
+				rep.Add(Disagreement{Case: fmt.Sprintf("%q html=%d", s, h), Where: "ojg.AppendSENString", Kind: "impl-vs-model:sen-string", Impl: got, Model: ans[2*i+h]})
+			}
+			texts[string(ojg.AppendSENString(nil, s, h == 1))] = true
+		}
+	}
+	rep.Count(fmt.Sprintf("sen-model:strings=%d", len(strs)))
+	escs := []string{`\n`, `\t`, `\"`, `\'`, `\/`, `\\`, `\b`, `\f`, `\r`, `A`, `é`, `é`, `\uD83D`, `😀`, `￿`, `\u0000`, `\x`, `\u12`, `\u12g4`, `\`}
+	mid := []string{"a", " ", "'", `"`, "é", "\t", "\n", "\r", "\x01", "\x7f", "/", "//", "/*", ":", ",", "]", "}"}
+	for _, q := range []string{`"`, `'`} {
+		for _, e := range escs {
+			for _, m := range mid {
+				if m != q {
+					for _, t := range []string{q + m + e + m + q, q + e + e + q} {
+						if !texts[t] {
+							texts[t] = false // hand-made: may be more or less than one value
+						}
+					}
+				}
+			}
+		}
+	}
+	for _, m := range mid {
+		if !texts["a"+m+"b"] {
+			texts["a"+m+"b"] = false
+		}
+	}
+	var tl []string
+	for t := range texts {
+		tl = append(tl, t)
+	}
+	sort.Strings(tl)
+	// pre: what stands before the value in the document; mpre: the part of it the reader model
+	// sees (it starts at the value position)
+	type ctx struct{ pre, mpre, term, post, kind string }
+	ctxs := []ctx{{"[", "", "]", "", "elem"}, {"[", "", " ", "]", "elem"}, {"[", "", ",", "]", "elem"}, {"[", "", "\n", "]", "elem"}, {"[ ", " ", "\t", "]", "elem"},
+		{"{k:", "", "}", "", "val"}, {"{k: ", " ", "\r", "}", "val"}, {"{", "", ":", "1}", "key"}}
+	reqs = reqs[:0]
+	for _, t := range tl {
+		for _, c := range ctxs {
+			reqs = append(reqs, "senread\t"+hx([]byte(c.mpre+t+c.term+c.post)))
+		}
+	}
+	ans, err = RunModel(model, reqs)
+	if err != nil {
+		rep.Add(Disagreement{Case: "model", Kind: "harness-error", Detail: err.Error()})
+		return
+	}
+	inDomain, outDomain, partial := 0, 0, 0
+	for i, t := range tl {
+		for j, c := range ctxs {
+			a := ans[i*len(ctxs)+j]
+			rep.Evaluations++
+			if a == "-" {
+				outDomain++
+				continue
+			}
+			inDomain++
+			// model: kind, string, rest
+			sp := strings.SplitN(a[1:], " ", 2)
+			ms, _ := hex.DecodeString(sp[0])
+			rest, _ := hex.DecodeString(sp[1])
+			var want any = string(ms)
+			if a[0] == 'T' && c.kind != "key" {
+				switch string(ms) {
+				case "null":
+					want = nil
+				case "true":
+					want = true
+				case "false":
+					want = false
+				}
+			}
+			wantRest := c.term + c.post
+			if a[0] == 'S' {
+				wantRest = c.term + c.post // the closing quote is consumed, the terminator is not
+			}
+			doc := c.pre + t + c.term + c.post
+			got := safe(func() string {
+				v, err := sen.Parse([]byte(doc))
+				if err != nil {
+					return "E " + err.Error()
+				}
+				switch c.kind {
+				case "elem":
+					if l, ok := v.([]any); ok && len(l) == 1 {
+						return "O " + Show(l[0])
+					}
+				case "val":
+					if m, ok := v.(map[string]any); ok && len(m) == 1 {
+						if x, has := m["k"]; has {
+							return "O " + Show(x)
+						}
+					}
+				case "key":
+					if m, ok := v.(map[string]any); ok && len(m) == 1 {
+						for k := range m {
+							return "O " + Show(k)
+						}
+					}
+				}
+				return "O? " + Show(v)
+			})
+			exp := "O " + Show(want)
+			if string(rest) != wantRest && !texts[t] {
+				partial++
+				continue
+			}
+			if string(rest) != wantRest {
+				exp = "model stopped at " + hx(rest) + " instead of " + hx([]byte(wantRest))
+			}
+			if got != exp {
+				rep.Add(Disagreement{Case: fmt.Sprintf("%q", doc), Where: "sen.Parse vs rrun (" + c.kind + ")", Kind: "impl-vs-model:sen-read", Impl: got, Model: exp})
+			}
+		}
+	}
+	rep.Count(fmt.Sprintf("sen-model:read-in-domain=%d", inDomain))
+	rep.Count(fmt.Sprintf("sen-model:read-outside=%d", outDomain))
+	rep.Count(fmt.Sprintf("sen-model:read-hand-made-not-one-value=%d", partial))
 }
